@@ -76,7 +76,7 @@ CLAIMS = {
   technique="TLA+ spec (VekLerp, VekOps!LerpInt) with its laws model-checked by TLC; TLC-emitted integer tables replayed into the real code (spec->code); generic/quaternion/Transform/Transition interpolation recorded from the code and validated by TLC (code->spec)",
   text=("TLC checks on the specification that the fast and precise formulas agree, hit the endpoints, are affine in the factor and extrapolate, that clamped = unclamped o clamp01, that the "
         "constructive slerp stays unit, reaches both ends (far end up to sign) along the shorter arc in equal steps, and that LerpInt is the real value rounded to nearest with ties away from zero. "
-        "TLC prints LerpInt(from,to,j/8) for all  of i8/u8, all  (thorough; boundary set in quick) and 25 factors in [-1,2]; the harness runs the integer implementations (f32/f64 x fast/precise, "
+        "TLC prints LerpInt(from,to,j/8) for every far endpoint of i8/u8, every near endpoint (thorough; boundary set in quick) and 25 factors in [-1,2]; the harness runs the integer implementations (f32/f64 x fast/precise, "
         "reference, range and clamped forms, scaled copies for the 8 wider integer types, vector lifts) on every entry. All Lerp forms of the 13 vector types (inherent/trait, value/reference, scalar/"
         "per-element factor, range, clamped), float scalars on dyadic operands, unnormalised and normalised quaternion lerp, quaternion slerp (inherent/trait/ref/clamped; acute and obtuse pairs), "
         "Transform lerp and all Transition accessors/constructors/mappers are recorded on exact rationals with token angles and recomputed by TLC."),
